@@ -1,5 +1,7 @@
 //go:build verif
 
+//go:debug randseednop=0
+
 // Driver for property C20 (back-off budget and fork accounting).
 // Generates op sequences over a heap of retry.Backoffer values, executes them on the real code with
 // sleeping virtualised (failpoint tikvclient/fastBackoffBySkipSleep) and prints, tab separated:
@@ -750,9 +752,37 @@ func runSeq(seq int, class string, seed int64, nops int) {
 		lim = []int{0, 500, 3000, 12000}[r.Intn(4)]
 	}
 	retry.VerifSetExcluded("tikvServerBusy", lim)
-	startSeq(seq, class)
+	startSeq(seq, class, seed)
 	g := &gen{r: r, w: newWorld(), class: class, exh: map[int]int{}}
-	if class == "directed11" {
+	if class == "domain" { // the model's domain guards: the last op must panic in the code (RBad in the model)
+		switch r.Intn(5) {
+		case 0: // BackOffWeight = 0, positive budget
+			g.do(op{k: "V", a: 0, b: 10})
+			g.do(op{k: "N", a: budgets[r.Intn(5)], b: 1, c: 0})
+		case 1: // BackOffWeight = 0: fine without a budget, ResetMaxSleep(>0) divides
+			g.do(op{k: "V", a: 0, b: 10})
+			g.do(op{k: "N", a: []int{0, -5}[r.Intn(2)], b: 1, c: 0})
+			g.backoff(0, 2)
+			g.do(op{k: "RM", a: 0, b: budgets[r.Intn(5)]})
+		case 2: // fork of a no-op back-offer: really sleeps, ResetMaxSleep(>0) hits nil vars
+			g.do(op{k: "N", a: 0, b: 0, c: 2})
+			g.backoff(0, 0)
+			g.do(op{k: "F", a: 0})
+			g.backoff(1, 2)
+			g.do(op{k: "RM", a: 1, b: budgets[r.Intn(5)]})
+		case 3: // clone of a no-op back-offer + txnLockFast: nil vars in createBackoffFn
+			g.do(op{k: "N", a: 0, b: 0, c: 2})
+			g.do(op{k: "C", a: 0})
+			g.backoff(1, 1)
+			g.w.errSeq++
+			g.do(op{k: "B", a: 1, b: []int{5, 23}[r.Intn(2)], c: -1, d: g.w.errSeq})
+		case 4: // no-op back-offer itself: ResetMaxSleep(>0)
+			g.do(op{k: "N", a: 0, b: 0, c: 2})
+			g.do(op{k: "RM", a: 0, b: 0})
+			g.do(op{k: "RM", a: 0, b: budgets[r.Intn(5)]})
+		}
+		nops = 0
+	} else if class == "directed11" {
 		g.directed11()
 		nops = 4
 	} else if class == "long" { // attempts far beyond the point where expo saturates (and where 2^n is +Inf as a double)
@@ -773,7 +803,8 @@ func runSeq(seq int, class string, seed int64, nops int) {
 	endSeq(seq, g.w)
 }
 
-func startSeq(seq int, class string) {
+func startSeq(seq int, class string, seed int64) {
+	rand.Seed(seed) // the jitter of config/retry comes from the global source: same seed => same draws (go:debug randseednop=0)
 	var ex []string
 	for k, v := range retry.VerifExcluded() {
 		ex = append(ex, fmt.Sprintf("%d:%d", nameID(k), v))
@@ -786,7 +817,7 @@ func startSeq(seq int, class string) {
 		}
 	}
 	sort.Strings(lf)
-	fmt.Fprintf(out, "S\t%d\t%s\t%s\t%s\n", seq, class, strings.Join(ex, ";"), strings.Join(lf, ";"))
+	fmt.Fprintf(out, "S\t%d\t%s\t%s\t%s\t%d\n", seq, class, strings.Join(ex, ";"), strings.Join(lf, ";"), seed)
 }
 
 func endSeq(seq int, w *world) {
@@ -832,7 +863,11 @@ func replay(file string) {
 			seq = atoi(f[1])
 			w = newWorld()
 			w.sparse = f[2] == "long"
-			startSeq(seq, f[2])
+			sd := int64(1)
+			if len(f) > 5 {
+				sd, _ = strconv.ParseInt(f[5], 10, 64)
+			}
+			startSeq(seq, f[2], sd)
 		case "O":
 			o := op{k: f[1]}
 			arg := func(i int) int {
@@ -892,6 +927,9 @@ func main() {
 	}
 	for s := 0; s < nlong; s++ {
 		runSeq(1000000+s, "long", seed*31+int64(s), 0)
+	}
+	for s := 0; s < 10; s++ {
+		runSeq(2000000+s, "domain", seed*53+int64(s), 0)
 	}
 	classes := []string{"single", "tree", "tree", "directed11", "excluded", "cancelkill", "maxsleep", "custom", "tree", "single"}
 	for s := 0; s < nseq; s++ {
